@@ -11,10 +11,19 @@ real run : kind "script"   the real AsyncTLSStreamTransport (made by its own wra
                            (1 KiB … 64 KiB per direction; the wrapped transport's send_all suspends while the pipe is full),
                            one reader and one or two sender tasks per side, all active at once, volumes around and well above
                            the capacity: full-duplex bulk transfer under backpressure (vlib/c08_duplex.py);
+           kind "multi"    SEVERAL AsyncTLSStreamTransport objects in ONE event loop over the REAL asyncio stream adapter
+                           (AsyncIOBackend().wrap_stream_socket on socketpair ends): both ends of a connection in-process
+                           and / or 2 … 4 connections at once; readers parked first, then all the writers send in the same
+                           loop turn (also writers-first / staggered), 1 B … several records, recv and recv_into,
+                           TLS 1.3 / 1.2; each end must read exactly what its own peer wrote (vlib/c08_multi.py);
+           "lend": true    (duplex, session) the in-memory wrapped transports keep the buffer given to recv_into across a
+                           suspension and fill it from a loop callback one iteration before the reader resumes (what the
+                           asyncio adapter does), so that two deliveries land before either reader has looked;
            kind "blocking" SSLStreamTransport over a socketpair, relay thread re-fragmenting, stdlib SSLSocket peer.
 model run: script and session cases: the recorded engine answers + the observed schedule go to the Lean wrapper machine
            (endriver `tls08`), whose predicted actions (ssl calls with their arguments, lock traffic, send_all sizes and
-           provenance, recv_into calls, results, final BIO state) must equal the observed ones.  blocking: no model run.
+           provenance, recv_into calls, results, final BIO state) must equal the observed ones.  blocking: decision
+           table only.  multi: no model run (oracle only: several endpoints, the real selector transport).
 oracle   : plaintext delivered == plaintext written, in order, both directions (engine level for scripted cases, peer level for
            real sessions); nothing but bytes that came out of the outgoing BIO reaches the wrapped transport (and no 8-byte
            window of plaintext occurs in them); no overlapping send_all / recv_into on the wrapped transport; no deadlock;
@@ -47,7 +56,8 @@ LEVEL_TEXT = (
     "laws TlsLaws the plaintext read on one side is a prefix of, and at quiescence equal to, the plaintext written on the "
     "other; plus differential correspondence of that model against the real transport driven by a scripted engine and by "
     "real OpenSSL sessions (trace replay, incl. full-duplex bulk transfers between two real endpoints over bounded pipes "
-    "with exact deadlock detection on a virtual-time loop), plus an end-to-end plaintext/provenance/deadlock oracle."
+    "with exact deadlock detection on a virtual-time loop), plus an end-to-end plaintext/provenance/deadlock oracle, "
+    "also over several TLS transports sharing one event loop on the real asyncio stream adapter (oracle only)."
 )
 LEVEL_NOTE = (
     "Trusted: Lean kernel; axioms propext, Quot.sound, Classical.choice only. The hand model (EasyNet/Model/Tls08.lean) is "
@@ -72,12 +82,17 @@ TRUSTED_BASE = [
     "canonicaliser, endriver line parser",
     "OpenSSL / ssl via TlsLaws (whole records, plaintext carried = plaintext accepted, read yields iff a complete record "
     "is available): validated on the recorded traces of every real session, not proved",
+    "multi kind: AF_UNIX socketpairs + asyncio's selector transport + the library's own asyncio stream adapter below the "
+    "TLS transports, single thread; the virtual-time loop polls the selector before it concludes that nothing can run "
+    "(vlib/c08_multi.py)",
 ]
 ASSUMPTIONS = [
     "ssl.write never returns 0 for a non-empty view (the Python loop would spin; the model reports `spin`)",
     "no cancellation and no aclose() during the modelled operations (covered by C10 / C09 / C14)",
     "TlsLaws for the transparency theorem; one reader task per direction for the end-to-end statement",
     "blocking variant: real threads, judged on inputs/outputs only; a harness-side timeout is an infrastructure error",
+    "multi kind (real sockets): judged on bytes / errors only, no model run; a stuck session is a result only when a second "
+    "run of the same case fails too, otherwise (and for the wall-clock guard) an infrastructure error",
 ]
 RULE = (
     "script case = handshake/read/write answer scripts (ok with partial counts, WANT_READ, WANT_WRITE, ZeroReturn, EOF, "
@@ -86,7 +101,11 @@ RULE = (
     "OSError injection; session case = role x peer kind x TLS version x write sizes (0 B … 3 records) both ways x "
     "fragment sizes (1 B … 64 KiB) x delays; duplex case = pipe capacity (1 KiB … 64 KiB per direction) x 1 or 2 sender "
     "tasks per side x volumes around and up to 5x the capacity (or small on one side) x task creation order x start "
-    "delays x recv buffer sizes x fragment / copy-step sizes x TLS version x role x optional request/response gating; "
+    "delays x recv buffer sizes x fragment / copy-step sizes x TLS version x role x optional request/response gating "
+    "x recv_into buffer copied at once / lent across a suspension and filled from a loop callback; multi case = 1 … 4 "
+    "socketpair connections in one loop over the real asyncio adapter (each: both ends the library, or library + stdlib "
+    "peer) x handshakes together / sequential x rounds (order readers-first / writers-first / staggered x recv / "
+    "recv_into x message sizes 1 B … 3 records per direction and connection) x TLS version x role x socket send buffer; "
     "non-trivial = a retried write after WANT_*, a partial write, a task parked on "
     "a transport lock, a read that had to wait, a multi-step handshake, or a real session; distinct by case digest"
 )
@@ -115,6 +134,9 @@ def run_real(case: dict) -> list[str]:
     if kind == "blocking":
         from vlib import c08_blocking as B
         return B.run_blocking(case)
+    if kind == "multi":
+        from vlib import c08_multi as M
+        return M.run_multi(case)
     return [f"harness-exc unknown kind {kind}"]
 
 
@@ -128,6 +150,8 @@ def real_for_diff(case: dict, real: list[str]) -> list[str]:
 
 
 def model_input(case: dict, real: list[str]):
+    if case.get("kind", "script") == "multi":
+        return None                             # oracle only
     if case.get("kind", "script") == "blocking":
         ops = [ln.split(" -> ")[0] for ln in real if ln.startswith("try ")]
         return ("tls08blk", ops) if ops else None
@@ -157,6 +181,9 @@ def oracle(case: dict, real: list[str]) -> str | None:
             if ln.startswith("viol "):
                 return ln[5:]
         return None
+    if kind == "multi":
+        from vlib import c08_multi as M
+        return M.problem(case, real)
     o = {ln.split()[0]: ln for ln in real if ln.startswith("o.")}
     # an operation may fail only when the SSL engine reported an error / EOF / close, or the wrapped transport raised or ended
     env_failed = any((ln.startswith("eng ") and ln.split()[2] in ("zeroreturn", "eoferror", "error"))
@@ -242,12 +269,18 @@ def nontrivial(case: dict, real: list[str]) -> str | None:
         return f"session/{case.get('role', 'client')}/{case.get('peer', 'raw')}/{case.get('ver', '1.3')}"
     if kind == "blocking":
         return "blocking/" + case.get("role", "client")
+    if kind == "multi":
+        conns = case.get("conns") or []
+        nlib = sum(2 if c.get("peer", "easynet") == "easynet" else 1 for c in conns)
+        orders = sorted({rd.get("order", "readers-first") for rd in case.get("rounds") or []})
+        return f"multi/{len(conns)}conn/{nlib}tls/{case.get('ver', '1.3')}/{'+'.join(orders) or 'hs-only'}"
     if kind == "duplex":
         bp = next((_kv(ln) for ln in real if ln.startswith("o.backpressure ")), None)
         both = bp is not None and int(bp["a2b"]) > 0 and int(bp["b2a"]) > 0
         one = bp is not None and (int(bp["a2b"]) > 0 or int(bp["b2a"]) > 0)
         ns = f"{len(case.get('a_send') or [])}x{len(case.get('b_send') or [])}"
-        return f"duplex/{'backpressure-both' if both else 'backpressure-one' if one else 'no-backpressure'}/{ns}/{case.get('order', 'readers-first')}"
+        return (f"duplex/{'backpressure-both' if both else 'backpressure-one' if one else 'no-backpressure'}/{ns}/"
+                f"{case.get('order', 'readers-first')}{'/lent' if case.get('lend') else ''}")
     flags = []
     blocked: set[str] = set()
     for ln in real:
@@ -298,6 +331,8 @@ def shrink(case: dict):
                     for j in range(len(op[1])):
                         yield {**case, key: lst[:i] + [["senditer", op[1][:j] + op[1][j + 1:]]] + lst[i + 1:]}
     elif kind == "session":
+        if case.get("lend"):
+            yield {k: v for k, v in case.items() if k != "lend"}
         for key in ("a2b", "b2a"):
             lst = case.get(key) or []
             for i in range(len(lst)):
@@ -314,7 +349,51 @@ def shrink(case: dict):
         for i, n in enumerate(case.get("b2a") or []):
             if n > 16:
                 yield {**case, "b2a": case["b2a"][:i] + [16] + case["b2a"][i + 1:]}
+    elif kind == "multi":
+        conns = case.get("conns") or []
+        rounds = case.get("rounds") or []
+        for i in range(len(rounds)):                            # drop a round
+            yield {**case, "rounds": rounds[:i] + rounds[i + 1:]}
+        if len(conns) > 1:                                      # drop a connection
+            for i in range(len(conns)):
+                yield {**case, "conns": conns[:i] + conns[i + 1:],
+                       "rounds": [{**rd, "sizes": (rd.get("sizes") or [])[:i] + (rd.get("sizes") or [])[i + 1:]} for rd in rounds]}
+        for i, c in enumerate(conns):                           # an independent peer instead of a second library end
+            if c.get("peer", "easynet") == "easynet" and len(conns) > 1:
+                yield {**case, "conns": conns[:i] + [{**c, "peer": "raw"}] + conns[i + 1:]}
+        for key in ("sndbuf",):
+            if case.get(key):
+                yield {k: v for k, v in case.items() if k != key}
+        if case.get("hs", "together") != "together":
+            yield {**case, "hs": "together"}
+        if case.get("ver", "1.3") != "1.3":
+            yield {**case, "ver": "1.3"}
+        for i, c in enumerate(conns):
+            if c.get("role", "client") != "client":
+                yield {**case, "conns": conns[:i] + [{**c, "role": "client"}] + conns[i + 1:]}
+        for j, rd in enumerate(rounds):
+            def put(new_rd: dict, j=j) -> dict:
+                return {**case, "rounds": rounds[:j] + [new_rd] + rounds[j + 1:]}
+            if rd.get("order", "readers-first") != "readers-first":
+                yield put({**rd, "order": "readers-first"})
+            if rd.get("op", "recv") != "recv":
+                yield put({**rd, "op": "recv"})
+            if rd.get("buf", 16384) != 16384:
+                yield put({**rd, "buf": 16384})
+            for key in ("park", "gap"):
+                if key in rd:
+                    yield put({k: v for k, v in rd.items() if k != key})
+            sizes = [list(x) for x in rd.get("sizes") or []]
+            for i, sz in enumerate(sizes):
+                for d, n in enumerate(sz):
+                    for m in (0, 1, n // 2):
+                        if 0 <= m < n:
+                            new = [list(x) for x in sizes]
+                            new[i][d] = m
+                            yield put({**rd, "sizes": new})
     elif kind == "duplex":
+        if case.get("lend"):
+            yield {k: v for k, v in case.items() if k != "lend"}
         for key in ("a_send", "b_send"):
             tasks = case.get(key) or []
             if len(tasks) > 1:                                  # drop a whole sender task
@@ -491,6 +570,8 @@ def _gen_session(rng, n: int) -> dict:
                     "b_wpause": rng.choice(pauses)}}
     if not small and case["a_reads"] == [["recv", 1]]:
         case["a_reads"] = [["recv", 4096]]
+    if rng.random() < (0.6 if case["peer"] == "easynet" else 0.2):
+        case["lend"] = True              # the wrapped transports keep the recv_into buffer across a suspension
     return case
 
 
@@ -552,6 +633,45 @@ def _gen_duplex(rng, n: int) -> dict:
     if rng.random() < 0.2:
         # request / response: side b answers only after it has received (part of) what side a sends
         case["b_after"] = rng.choice([1, sum(map(sum, a_send)) // 2, sum(map(sum, a_send))])
+    if rng.random() < 0.5:
+        # recv_into's buffer stays with the wrapped transport while the reader is suspended and is filled from a loop
+        # callback (as the asyncio adapter does): the two ends' deliveries can land in the same loop iteration
+        case["lend"] = True
+    return case
+
+
+_MULTI_SIZES = [0, 1, 1, 2, 7, 100, 1000, 5000, 16384, 16385, 20000, 33000, 50000]
+
+
+def _gen_multi(rng, n: int) -> dict:
+    """several library TLS transports in one loop over the real asyncio adapter (vlib/c08_multi.py)"""
+    shape = rng.random()
+    if shape < 0.30:
+        peers = ["easynet"]                                          # both ends of ONE connection in-process
+    elif shape < 0.60:
+        peers = ["raw"] * rng.choice([2, 2, 3, 4])                   # N connections, each with an independent peer
+    else:
+        peers = [rng.choice(["easynet", "raw"]) for _ in range(rng.choice([2, 2, 3, 4]))]
+    conns = [{"peer": p, "role": rng.choice(["client", "client", "server"])} for p in peers]
+    rounds = []
+    for _ in range(rng.choice([1, 2, 2, 3, 4])):
+        small = rng.random() < 0.4
+        pool = _MULTI_SIZES[1:7] if small else _MULTI_SIZES
+        sizes = [[rng.choice(pool), rng.choice(pool)] for _ in conns]
+        if not any(n > 0 for sz in sizes for n in sz):
+            sizes[0][0] = 1
+        rd = {"order": rng.choice(["readers-first", "readers-first", "readers-first", "writers-first", "staggered"]),
+              "op": rng.choice(["recv", "recv", "recvinto"]), "buf": rng.choice([1024, 16384, 16384, 65536, 70000]),
+              "sizes": sizes}
+        if rng.random() < 0.3:
+            rd["park"] = rng.choice([0, 1, 2, 8])
+        if rd["order"] == "staggered":
+            rd["gap"] = rng.choice([0, 1, 2, 3])
+        rounds.append(rd)
+    case = {"kind": "multi", "seed": n, "ver": rng.choice(["1.3", "1.3", "1.2"]), "conns": conns,
+            "hs": rng.choice(["together", "together", "sequential"]), "rounds": rounds}
+    if rng.random() < 0.25:
+        case["sndbuf"] = rng.choice([4096, 16384])                   # real backpressure on the socket
     return case
 
 
@@ -560,10 +680,13 @@ def generate(rng, tier: str, boost: int):
     n_sess = (150 if tier == "quick" else 1500) * boost
     n_blk = (8 if tier == "quick" else 60) * (1 if boost == 1 else 2)
     dup_every = 2 if tier == "quick" else 3        # 75 / 500 duplex sessions
+    multi_every = 3                                # 50 / 500 multi-transport sessions over the real asyncio adapter
     for i in range(n_sess):
         yield _gen_session(rng, rng.randrange(1 << 30))
         if i % dup_every == 0:
             yield _gen_duplex(rng, rng.randrange(1 << 30))
+        if i % multi_every == 1:
+            yield _gen_multi(rng, rng.randrange(1 << 30))
         for _ in range(n_script // max(n_sess, 1)):
             yield _gen_script(rng)
     for i in range(n_blk):
